@@ -1,7 +1,7 @@
 (* Proofs_Record.v — codec round trip, parameter-section stage (C01/C02/C04/C17): what Parameter::read and
    Group::read return on exactly the bytes Parameter::write and Group::write emit, for every well-formed
    parameter and group (the well-formedness predicate is the list of the format's capacity limits). *)
-From Coq Require Import Lia ZifyN ZifyBool.
+From Coq Require Import Lia ZifyNat ZifyN ZifyBool.
 From EZ Require Import Base Bytes Types Api Enc Dec Proofs_Bytes Proofs_Lookup Proofs_Codec.
 Local Open Scope N_scope.
 
@@ -482,15 +482,17 @@ Qed.
 (* ---------- one group record ---------- *)
 Definition wf_group_hdr (g : group) : Prop := name_ok (g_name g) /\ desc_ok (g_desc g).
 
+Definition desc_after (g old : group) : bstr := match g_desc g with [] => g_desc old | d => d end.
+
 Theorem read_group_written : forall g old st r,
   wf_group_hdr g -> st_fail st = false ->
   st_rest st = upper (g_name g) ++ le_bytes 2 (3 + zlen (g_desc g))%Z ++ [low8 (zlen (g_desc g))] ++ g_desc g ++ r ->
-  g_desc g <> [] \/ g_desc old = [] ->
-  exists nxt, read_group old (hex2int [name_len_byte (g_name g) (g_lock g)]) st =
-    Ok ((mkGroup (upper (g_name g)) (g_desc g) (g_lock g) (g_params old), nxt),
+  read_group old (hex2int [name_len_byte (g_name g) (g_lock g)]) st =
+    Ok ((mkGroup (upper (g_name g)) (desc_after g old) (g_lock g) (g_params old),
+         wrap32s (Z.of_N (st_pos st + N.of_nat (length (g_name g)) + 2) + (3 + zlen (g_desc g)) - 2)),
         adv st (length (g_name g) + 2 + (1 + length (g_desc g))) r).
 Proof.
-  intros g old st r [[Hn Hnn] [Hdl Hdn]] Hf Hr Hd.
+  intros g old st r [[Hn Hnn] [Hdl Hdn]] Hf Hr.
   destruct (nchars_of_name (g_name g) (g_lock g) Hn) as [Ea El].
   unfold read_group. unfold rbind at 1. rewrite Ea.
   pose proof (reads_string (upper (g_name g)) Hnn st _ Hf Hr) as R1. unfold upper in R1. rewrite !map_length in R1. fold (upper (g_name g)) in R1. rewrite R1. clear R1.
@@ -501,18 +503,18 @@ Proof.
   assert (E0 : (Z.to_N (3 + zlen (g_desc g)) =? 0) = false) by (unfold zlen; lia). rewrite E0.
   unfold rbind at 1. unfold rd_tell at 1. unfold rret at 1.
   assert (Rd : reads (dl <- rd_uint 1 ;; if dl =? 0 then rret (g_desc old) else rd_string (N.to_nat dl))%R
-                     ([low8 (zlen (g_desc g))] ++ g_desc g) (g_desc g)).
-  { unfold zlen. rewrite low8_small by lia. eapply reads_bind; [apply reads_uint1; lia|].
+                     ([low8 (zlen (g_desc g))] ++ g_desc g) (desc_after g old)).
+  { unfold zlen, desc_after. rewrite low8_small by lia. eapply reads_bind; [apply reads_uint1; lia|].
     destruct (g_desc g) as [|c t] eqn:D.
-    - cbn. destruct Hd as [Hd|Hd]; [contradiction|]. rewrite Hd. apply reads_ret.
+    - cbn. apply reads_ret.
     - assert (E : (Z.to_N (Z.of_nat (length (c :: t))) =? 0) = false) by (cbn [length]; lia). rewrite E.
       rewrite to_N_of_nat, Nat2N.id. apply reads_string. exact Hdn. }
   assert (Rg : forall nxt : Z, reads (dl <- rd_uint 1 ;; desc <- (if dl =? 0 then rret (g_desc old) else rd_string (N.to_nat dl)) ;;
                          rret (mkGroup (upper (g_name g)) desc (hex2int [name_len_byte (g_name g) (g_lock g)] <? 0)%Z (g_params old), nxt))%R
                      ([low8 (zlen (g_desc g))] ++ g_desc g)
-                     (mkGroup (upper (g_name g)) (g_desc g) (g_lock g) (g_params old), nxt)).
+                     (mkGroup (upper (g_name g)) (desc_after g old) (g_lock g) (g_params old), nxt)).
   { intros nxt. apply reads_assoc. rewrite <- (app_nil_r ([low8 (zlen (g_desc g))] ++ g_desc g)).
     eapply reads_bind; [exact Rd|]. rewrite El. apply reads_ret. }
-  rewrite app_assoc. eexists. rewrite (Rg _ _ r (adv_fail _ _ _)); [|rewrite adv_rest; reflexivity].
-  rewrite adv_adv. rewrite app_length. cbn [length]. reflexivity.
+  rewrite app_assoc. rewrite (Rg _ _ r (adv_fail _ _ _)); [|rewrite adv_rest; reflexivity].
+  rewrite adv_adv. rewrite app_length. cbn [length]. unfold tell. cbn [adv st_fail st_pos]. rewrite Z2N.id by (unfold zlen; lia). do 2 f_equal. f_equal. f_equal. lia.
 Qed.
